@@ -152,6 +152,15 @@ impl LtHash {
     }
 }
 
+#[cfg(feature = "verif-hooks")]
+impl LtHash {
+    /// Read-only view of the lanes, for the external verification harness.
+    #[must_use]
+    pub fn verif_lanes(&self) -> &[u16; NUM_LANES] {
+        &self.lanes
+    }
+}
+
 impl Default for LtHash {
     fn default() -> Self {
         Self::identity()
